@@ -58,3 +58,81 @@ def memo_rule(repo: Repo, prop: str, rule_id: str, module_prefixes: Tuple[str, .
         else:
             r.ok(fn, "memoised value does not depend on coordinates", key="memo")
     return r
+
+
+def lazy_cache_rule(repo: Repo, prop: str, rule_id: str, module_prefixes: Tuple[str, ...] = ("",), floor: int = 0) -> RuleRun:
+    """Hand-written memoisation: ``if self._c is None: self._c = <expr>`` ... ``self._c``. The cached value is stale as soon as
+    something <expr> was computed from changes. Reported: (a) <expr> reads a parameter of the method (the value belongs to one
+    call, the cache to the instance); (b) <expr> reads ``self.X`` and some method of the class changes ``self.X`` (append/add/
+    assignment, through callees) without resetting the cache."""
+    from .effects import Effects
+
+    r = RuleRun(prop, rule_id, floor=floor, what="hand-written lazy caches (if self._c is None: self._c = ...) are reset by every method that changes what they were computed from, and never hold a value computed from a call argument")
+    eff = None
+    n_caches = 0
+    for fn in sorted(repo.all_functions(), key=lambda f: f.qualname):
+        short = fn.module.name[len("classy_blocks.") :] if fn.module.name.startswith("classy_blocks.") else fn.module.name
+        if fn.cls is None or not fn.params or not any(short.startswith(p) for p in module_prefixes):
+            continue
+        selfname = fn.params[0]
+        for n in ast.walk(fn.node):
+            if not isinstance(n, ast.If):
+                continue
+            t = n.test
+            cache = None
+            if isinstance(t, ast.Compare) and len(t.ops) == 1 and isinstance(t.ops[0], ast.Is) and isinstance(t.comparators[0], ast.Constant) and t.comparators[0].value is None and isinstance(t.left, ast.Attribute) and attr_chain(t.left.value) == selfname:
+                cache = t.left.attr
+            elif isinstance(t, ast.UnaryOp) and isinstance(t.op, ast.Not) and isinstance(t.operand, ast.Attribute) and attr_chain(t.operand.value) == selfname:
+                cache = t.operand.attr
+            if cache is None:
+                continue
+            stores = [s_ for s_ in n.body if isinstance(s_, (ast.Assign, ast.AnnAssign)) and any(isinstance(tt, ast.Attribute) and tt.attr == cache and attr_chain(tt.value) == selfname for tt in (s_.targets if isinstance(s_, ast.Assign) else [s_.target]))]
+            if not stores or stores[0].value is None:
+                continue
+            # it is a cache only if the attribute is read back (returned / used) outside the `if`
+            n_caches += 1
+            expr = stores[0].value
+            params_read = sorted({x.id for x in ast.walk(expr) if isinstance(x, ast.Name) and x.id in fn.params[1:]})
+            key = f"cache:{cache}"
+            if params_read:
+                r.bad(
+                    fn,
+                    f"{fn.qualname} keeps '{ast.unparse(expr)[:60]}' in self.{cache} on the first call, but the value is computed from the call argument(s) {params_read}: every later call "
+                    "with another argument silently reuses the value of the first one",
+                    stores[0],
+                    key=key,
+                )
+                continue
+            deps = sorted({x.attr for x in ast.walk(expr) if isinstance(x, ast.Attribute) and attr_chain(x.value) == selfname and x.attr != cache})
+            if eff is None:
+                eff = Effects(repo)
+            stale_by = []
+            for c in [fn.cls, *repo.subclasses(fn.cls), *repo.mro(fn.cls)[1:]]:
+                for m in c.methods.values():
+                    if m is fn or m.name == "__init__":
+                        continue
+                    changed = {a.split(".", 1)[1] for a in eff.mutated_self_attrs(m)}
+                    for x in ast.walk(m.node):
+                        if isinstance(x, (ast.Assign, ast.AugAssign)):
+                            for tt in x.targets if isinstance(x, ast.Assign) else [x.target]:
+                                if isinstance(tt, ast.Attribute) and attr_chain(tt.value) == m.params[0] if m.params else False:
+                                    changed.add(tt.attr)
+                    hit = changed & set(deps)
+                    if not hit:
+                        continue
+                    resets = any(isinstance(x, ast.Assign) and any(isinstance(tt, ast.Attribute) and tt.attr == cache for tt in x.targets) for x in ast.walk(m.node))
+                    if not resets:
+                        stale_by.append((m, sorted(hit)))
+            if stale_by:
+                m, hit = stale_by[0]
+                r.bad(
+                    fn,
+                    f"{fn.qualname} caches '{ast.unparse(expr)[:60]}' in self.{cache}; {m.qualname} changes self.{hit[0]} afterwards without resetting the cache: the cached value "
+                    "keeps describing the state at the time of the first call",
+                    stores[0],
+                    key=key,
+                )
+            else:
+                r.ok(fn, f"self.{cache} depends on {deps or 'nothing mutable'}; every method that changes them resets it", key=key)
+    r.note(f"{n_caches} hand-written lazy cache(s) found in the selected modules")
+    return r
